@@ -380,6 +380,8 @@ class Translator:
                     self.env[o_.id] = res
                 elif isinstance(o_, ast.Attribute):
                     self.v.bind(norm(o_), res)
+                elif isinstance(o_, ast.Subscript):
+                    self._assign(o_, res)  # a row / column / element of a tracked matrix
                 else:
                     raise Unsupported(f"out=`{norm(o_)}`")
             return res
@@ -407,10 +409,17 @@ class Translator:
             x = self.tr(args[0])
             if _is_mat(x):
                 return x.det()
-        if f == "np.zeros" and args:
+        if f in ("np.zeros", "numpy.zeros") and args:
             shp = self.tr(args[0])
             if isinstance(shp, tuple) and len(shp) == 2:
                 return sp.zeros(int(shp[0]), int(shp[1]))
+        if f in ("np.empty", "numpy.empty") and args:
+            # uninitialised storage: every entry is its own unknown, so that an entry that is read before it was written
+            # shows up in the result as an unrecognised source
+            shp = self.tr(args[0])
+            if isinstance(shp, tuple) and len(shp) == 2:
+                self._empties = getattr(self, "_empties", 0) + 1
+                return sp.Matrix(int(shp[0]), int(shp[1]), lambda i_, j_: self.v.atom(f"<uninitialised np.empty#{self._empties}[{i_},{j_}]>"))
         if f == "len" and len(args) == 1:
             return self.v.atom(f"len({norm(args[0])})")
         if isinstance(e.func, ast.Attribute) and e.func.attr in ("copy",) and not args:
@@ -493,7 +502,41 @@ class Translator:
                 elif c is sp.false or c == False:  # noqa: E712
                     r = self.run_block(st.orelse, on_return)
                 else:
-                    raise Unsupported(f"branch condition `{norm(st.test)}` does not fold to a constant")
+                    # a test the value numbering cannot decide (`isinstance(x, np.ndarray)`, a dtype test …): both arms are
+                    # run on copies of the state; they must leave the SAME values behind (then the test did not matter)
+                    import copy as _copy
+
+                    def _snap():
+                        return ({k_: (v_.copy() if _is_mat(v_) else v_) for k_, v_ in self.env.items()}, {k_: (v_.copy() if _is_mat(v_) else v_) for k_, v_ in self.v.values.items()})
+
+                    e0, v0 = _snap()
+                    r1 = self.run_block(st.body, on_return)
+                    e1, v1 = _snap()
+                    self.env, self.v.values = {k_: (v_.copy() if _is_mat(v_) else v_) for k_, v_ in e0.items()}, {k_: (v_.copy() if _is_mat(v_) else v_) for k_, v_ in v0.items()}
+                    r2 = self.run_block(st.orelse, on_return)
+                    e2, v2 = _snap()
+
+                    def _same(a_, b_):
+                        try:
+                            if _is_mat(a_) or _is_mat(b_):
+                                return _is_mat(a_) and _is_mat(b_) and a_.shape == b_.shape and all(sp.simplify(x_ - y_) == 0 for x_, y_ in zip(a_, b_))
+                            if isinstance(a_, (tuple, list)) or isinstance(b_, (tuple, list)):
+                                return type(a_) is type(b_) and len(a_) == len(b_) and all(_same(x_, y_) for x_, y_ in zip(a_, b_))
+                            return a_ is b_ or sp.simplify(sp.sympify(a_) - sp.sympify(b_)) == 0
+                        except Exception:
+                            return False
+
+                    keys_e = {k_ for k_ in set(e1) | set(e2) if not (k_ in e0 and k_ in e1 and k_ in e2 and e1[k_] is e0[k_] and e2[k_] is e0[k_])}
+                    live_later = {n_.id for later in body[body.index(st) + 1:] for n_ in ast.walk(later) if isinstance(n_, ast.Name)}
+                    for k_ in keys_e:
+                        if k_ in live_later and not (k_ in e1 and k_ in e2 and _same(e1[k_], e2[k_])):
+                            raise Unsupported(f"branch condition `{norm(st.test)}` does not fold to a constant and the arms differ on `{k_}`")
+                    for k_ in set(v1) | set(v2):
+                        if not (k_ in v1 and k_ in v2 and _same(v1[k_], v2[k_])):
+                            raise Unsupported(f"branch condition `{norm(st.test)}` does not fold to a constant and the arms differ on `{k_}`")
+                    if (r1 is None) != (r2 is None) or (r1 is not None and norm(r1[1]) != norm(r2[1])):
+                        raise Unsupported(f"branch condition `{norm(st.test)}` does not fold to a constant and only one arm returns")
+                    r = r2
                 if r is not None:
                     return r
             elif isinstance(st, ast.Return):
@@ -515,6 +558,21 @@ class Translator:
             base = self.tr(t.value)
             if _is_mat(base):
                 idx = t.slice
+                # M[:, j] = v  /  M[i, :] = v : a whole column / row (scalar broadcast, or one value per entry)
+                if isinstance(idx, ast.Tuple) and len(idx.elts) == 2 and any(isinstance(x, ast.Slice) and x.lower is None and x.upper is None and x.step is None for x in idx.elts) \
+                        and not all(isinstance(x, ast.Slice) for x in idx.elts):
+                    col = isinstance(idx.elts[0], ast.Slice)
+                    k = int(self.tr(idx.elts[1] if col else idx.elts[0]))
+                    n_ = base.rows if col else base.cols
+                    vals = list(val) if isinstance(val, (tuple, list)) else ([val[i_] for i_ in range(len(val))] if _is_mat(val) else [val] * n_)
+                    if len(vals) != n_:
+                        raise Unsupported(f"store `{norm(t)}`: {len(vals)} values for {n_} entries")
+                    for i_, v_ in enumerate(vals):
+                        if col:
+                            base[i_, k] = v_
+                        else:
+                            base[k, i_] = v_
+                    return
                 try:
                     if isinstance(idx, ast.Tuple) and len(idx.elts) == 2:
                         iv, jv = (self.tr(x) for x in idx.elts)
